@@ -226,22 +226,17 @@ class MakeFreeMixin(ChemistryMixin):
         nlayers: int
             Number of layers
         """
-        from taurex.util.util import get_molecular_weight
         if not self._run:
             return
-        self.show_old_gases = True
-        super().compute_mu_profile(nlayers)
-        self.show_old_gases = False
-        self._mu_profile = super().muProfile
 
-        for idx, g in enumerate(reversed(self.active_nonexist)):
-            self._mu_profile += get_molecular_weight(g.molecule) * \
-                self.activeGasMixProfile[-idx-1]
-
-
-        for idx, g in enumerate(reversed(self.inactive_nonexist)):
-            self._mu_profile += get_molecular_weight(g.molecule) * \
-                self.inactiveGasMixProfile[-idx-1]
+        # Weighted sum over the normalised mixture that is handed out
+        self._mu_profile = np.zeros(shape=(nlayers,))
+        for names, mix in ((self.activeGases, self.activeGasMixProfile),
+                           (self.inactiveGases, self.inactiveGasMixProfile)):
+            if mix is None:
+                continue
+            for idx, gasname in enumerate(names):
+                self._mu_profile += self.get_molecular_mass(gasname) * mix[idx]
 
     def fitting_parameters(self):
         """
